@@ -55,6 +55,36 @@ type Swarm struct {
 // Swarm implements mesh.Gossiper.
 var _ mesh.Gossiper = &Swarm{}
 
+// payload adapts a state to what the gossip transport expects from the data it queues: merging
+// two queued payloads must return their union and leave both usable. (State.Merge instead turns
+// its argument into a delta and returns that delta, and it can only merge volatile states.)
+type payload struct {
+	state *event.State
+}
+
+// newPayload wraps a state for the transport.
+func newPayload(state *event.State) mesh.GossipData {
+	return &payload{state: state}
+}
+
+// Encode serializes the payload.
+func (p *payload) Encode() [][]byte {
+	return p.state.Encode()
+}
+
+// Merge returns a new payload which carries everything both payloads carry.
+func (p *payload) Merge(other mesh.GossipData) mesh.GossipData {
+	union := event.NewState("")
+	for _, src := range []*event.State{p.state, other.(*payload).state} {
+		for _, buf := range src.Encode() { // copy, the states must not be altered
+			if copied, err := event.DecodeState(buf); err == nil {
+				union.Merge(copied)
+			}
+		}
+	}
+	return newPayload(union)
+}
+
 // NewSwarm creates a new swarm messaging layer.
 func NewSwarm(cfg *config.ClusterConfig) *Swarm {
 	name := getLocalPeerName(cfg)
@@ -255,7 +285,10 @@ func (s *Swarm) merge(buf []byte) (mesh.GossipData, error) {
 	}
 
 	// Merge and get the delta
-	delta := s.state.Merge(other)
+	var delta mesh.GossipData
+	if s.state.Merge(other) != nil {
+		delta = newPayload(other)
+	}
 	other.Subscriptions(func(ev *event.Subscription, v event.Value) {
 		if ev.Peer == uint64(s.router.Ourself.Name) {
 			return // Skip ourselves
@@ -295,7 +328,7 @@ func (s *Swarm) NumPeers() int {
 
 // Gossip returns the state of everything we know; gets called periodically.
 func (s *Swarm) Gossip() (complete mesh.GossipData) {
-	return s.state
+	return newPayload(s.state)
 }
 
 // OnGossip merges received data into state and returns "everything new I've just
@@ -356,7 +389,7 @@ func (s *Swarm) Notify(ev event.Event, enabled bool) {
 	}
 
 	// Broadcasting just this operation
-	s.gossip.GossipBroadcast(op)
+	s.gossip.GossipBroadcast(newPayload(op))
 }
 
 // Contains checks whether an event is currently triggered within the cluster.
